@@ -77,6 +77,7 @@ def cmdline(argv=None):
         try:
             template = Template(
                 filename=filename,
+                uri=lookup.filename_to_uri(filename),
                 lookup=lookup,
                 output_encoding=output_encoding,
             )
